@@ -185,10 +185,11 @@ def l1_groups(tier):
     reps = {
         "I": [A("i"), ("bin", "+", L("n", 1), L("n", 2)), ("bin", "+", A("i"), L("n", 1)), ("bin", "*", B0("j"), L("n", 2))],
         "D": [A("d"), ("bin", "+", L("D", 0.5), L("D", 1.0)), ("bin", "*", B0("d"), L("D", 2.0))],
-        "B": [A("b"), ("bin", "<", A("i"), L("n", 2)), ("un", "!", B0("c")),
-              # operands that branch themselves (several basic blocks)
-              ("bin", "||", B0("b"), ("rd", ("obj", "c0"), "b")), ("bin", "&&", B0("b"), ("rd", ("obj", "c0"), "c")),
-              ("tern", ("rd", ("obj", "c0"), "b"), B0("b"), B0("c"))],
+        "B": [A("b"), ("bin", "<", A("i"), L("n", 2)), ("un", "!", B0("c"))] +
+             # operands that branch themselves (several basic blocks); quick has them in family L4
+             ([("bin", "||", B0("b"), ("rd", ("obj", "c0"), "b")), ("bin", "&&", B0("b"), ("rd", ("obj", "c0"), "c")),
+               ("tern", ("rd", ("obj", "c0"), "b"), B0("b"), B0("c"))] if tier == "thorough" else
+              [("bin", "||", B0("b"), ("rd", ("obj", "c0"), "b"))]),
         "S": [A("s"), ("bin", "+", L("s", "x"), L("s", "y")), ("bin", "+", B0("s"), L("s", "z"))],
     }
     ops2 = {"I": ["+", "-", "*", "/", "%", "<", "==", "&", "|", ">>"] if tier == "quick" else I_ops + ["<<", ">>"],
